@@ -48,7 +48,7 @@ pub fn level_slice(w: &World, req: &Req, n: usize) -> World {
 }
 
 fn opts(rec: &Rec<'_>) -> AuthOpts {
-    AuthOpts { schema: SchemaOpts { chains: true, ..SchemaOpts::default() }, max_policies: rec.size(3, 5), depth: rec.size(2, 3), path_budget: 4, traps: false }
+    AuthOpts { closed_16: 0, schema: SchemaOpts { chains: true, ..SchemaOpts::default() }, max_policies: rec.size(3, 5), depth: rec.size(2, 3), path_budget: 4, traps: false }
 }
 
 fn gen(t: &mut Tape, rec: &mut Rec<'_>) -> Option<AuthCase> {
